@@ -545,3 +545,23 @@ func (p *Prog) ReachLexical(entries ...*ssa.Function) map[*ssa.Function]bool {
 	}
 	return seen
 }
+
+// OriginOf returns the generic origin of an instantiated function, or fn.
+func OriginOf(fn *ssa.Function) *ssa.Function {
+	if fn == nil {
+		return nil
+	}
+	if o := fn.Origin(); o != nil {
+		return o
+	}
+	return fn
+}
+
+// BaseName is the declared name of a function or method (type arguments of
+// instantiations stripped).
+func BaseName(fn *ssa.Function) string {
+	if fn == nil {
+		return ""
+	}
+	return OriginOf(fn).Name()
+}
